@@ -234,7 +234,7 @@ def roundtrip(variant='int-validation', cap=30, block=()):
                 same = True
                 for f in files:
                     with rasterio.open(os.path.join(out1, f)) as a, rasterio.open(os.path.join(out2, f)) as b:
-                        same = same and a.count == b.count and all(np.array_equal(a.read(k + 1), b.read(k + 1), equal_nan=True) for k in range(a.count))
+                        same = same and a.count == b.count and list(a.descriptions) == list(b.descriptions) and all(np.array_equal(a.read(k + 1), b.read(k + 1), equal_nan=True) for k in range(a.count))
                 ob(same and sorted(x for x in os.listdir(out2) if x.endswith('.tif')) == files, 'replayed-config-reproduces-the-rasters')
             except Exception as e:      # noqa
                 ob(False, 'saved-config-is-accepted-when-fed-back', repr(e))
